@@ -312,7 +312,7 @@ func (g *gen) genStatement(typ types.Type, this string) error {
 		p.P("}")
 		return nil
 	}
-	return fmt.Errorf("unsupported root type: %#v", typ)
+	return fmt.Errorf("unsupported root type: %s", g.TypesMap.TypeString(typ))
 }
 
 func (g *gen) genField(fieldType types.Type, this string) error {
@@ -370,5 +370,5 @@ func (g *gen) genField(fieldType types.Type, this string) error {
 		p.P("%s.Fprintf(buf, \"%s = %s\\n\", %s)", g.fmtPkg(), this, "%s", g.GetFuncName(fieldType)+"("+this+")")
 		return nil
 	}
-	return fmt.Errorf("unsupported field type %#v", fieldType)
+	return fmt.Errorf("unsupported field type %s", g.TypesMap.TypeString(fieldType))
 }
